@@ -1646,6 +1646,7 @@ func TestVerifC18(t *testing.T) {
 	w.layoutLoopCases(r, vfutil.Scale(12, 300))
 	w.findingCases(r, vfutil.Scale(60, 600)) // known finding C18-F1 (kept apart from the general generator)
 	w.parseCases(r, vfutil.Scale(600, 20000)) // C18's own tie of the parser model (cluster mode)
+	w.dimensionCases(r) // degenerate-but-legal inputs, forced (vf_c18_dim_test.go)
 	w.unlistedCases(r, vfutil.Scale(400, 8000)) // movablekeys commands without a row in the tool's tables: resolved by the target or refused
 
 	// ---- corpus, then generated transactions
